@@ -301,7 +301,14 @@ func genC11(c *Ctx) error {
 		return err
 	}
 	chU := w.Peer.Channels["uu"]
-	for _, id := range idents {
+	// certificates whose organisational unit merely contains "admin" are not admin certificates; case is ignored
+	near := []struct{ ou string; admin bool }{{"administrators", false}, {"sysadmin", false}, {"non-admin-auditor", false}, {"Admin", true}, {"ADMIN", true}, {"admi", false}}
+	initIdents := append([]gIdent(nil), idents...)
+	for k, n := range near {
+		idn := NewECIdentity("near"+strconv.Itoa(k), n.ou)
+		initIdents = append(initIdents, gIdent{"OU=" + n.ou, idn, idn.Creator, fmt.Sprintf("(Creator true %d %d %s)", 20+k, 40+k, coqBool(n.admin))})
+	}
+	for _, id := range initIdents {
 		before := stateSnapshot(chU)
 		r := w.Peer.Init("uu", id.Bytes, w.ConfigJSON("UU", ChanOpts{DisableSwaps: true}))
 		c.Emit(fmt.Sprintf("CInit %s %s %s", id.Term, coqBool(r.OK()), coqBool(!stateEqual(before, chU))),
